@@ -57,14 +57,21 @@ CLOCKS = ("time.", "datetime.", "uuid.", "random.", "os.urandom", "itertools.cou
            "counter or clock")
 def g2(ctx):
     obs = []
+    from ..dataflow import value_roots
     f = ctx.own_method(GIT + ".BareGitStore", "get_ctag")
-    ok = False
-    for n in walk_local(f.node):
-        if isinstance(n, ast.Return):
-            s = src(n.value)
-            calls = [dotted(c.func) for c in ast.walk(n.value) if isinstance(c, ast.Call)]
-            ok = "self._get_current_tree" in calls and any(isinstance(x, ast.Attribute) and x.attr == "id" and isinstance(x.value, ast.Call)
-                                                           and dotted(x.value.func) == "self._get_current_tree" for x in ast.walk(n.value))
+    cfgb = ctx.cfg(f)
+    dub = DefUse(cfgb)
+    retsb = [n for n in cfgb.nodes if n.kind == "return" and n.ast.value is not None]
+    ok = bool(retsb)
+    for r in retsb:
+        roots = value_roots(dub, r, r.ast.value)
+        # <self._get_current_tree()>.id
+        good = bool(roots) and all(
+            o.kind == "expr" and not o.path and isinstance(o.leaf, ast.Attribute) and o.leaf.attr == "id"
+            and (lambda bo: bool(bo) and all(b.kind == "expr" and not b.path and isinstance(b.leaf, ast.Call) and dotted(b.leaf.func) == "self._get_current_tree"
+                                             for b in bo))(value_roots(dub, o.node, o.leaf.value))
+            for o in roots)
+        ok = ok and good
     obs.append(ctx.ob(ok, f.qualname, f.where, "bare ctag is the id of the current tree", "self._get_current_tree().id",
                       "BareGitStore.get_ctag does not return the id of the current tree"))
     ct = ctx.own_method(GIT + ".BareGitStore", "_get_current_tree")
@@ -94,11 +101,14 @@ def g2(ctx):
     ok = bool(rets)
     for r in rets:
         this = False
-        for x in ast.walk(r.ast.value):
-            if isinstance(x, ast.Call) and isinstance(x.func, ast.Attribute) and x.func.attr == "commit" and isinstance(x.func.value, ast.Name):
-                for d in du.reaching(r, x.func.value.id):
-                    if isinstance(d.value, ast.Call) and dotted(d.value.func) == "self.repo.open_index":
-                        this = True
+        roots = value_roots(du, r, r.ast.value) if r.ast.value is not None else []
+        if roots and all(o.kind == "expr" and not o.path and isinstance(o.leaf, ast.Call) and isinstance(o.leaf.func, ast.Attribute)
+                         and o.leaf.func.attr == "commit" for o in roots):
+            this = True
+            for o in roots:
+                io = value_roots(du, o.node, o.leaf.func.value)
+                if not (io and all(b.kind == "expr" and not b.path and isinstance(b.leaf, ast.Call) and dotted(b.leaf.func) == "self.repo.open_index" for b in io)):
+                    this = False
         # the listing of the tree store comes from the index, so the tag must come from the index on EVERY path
         ok = ok and this
     obs.append(ctx.ob(ok, f.qualname, f.where, "tree ctag is Index.commit() of a freshly opened index", "self.repo.open_index().commit(object_store)",
